@@ -130,6 +130,8 @@ func modifyUsingTemp(c1, c2, c3 *sqlcheck.Change) (from, to *schema.Table, _ boo
 	add.T.Name = name
 	// Right after "INSERT", the "DROP T" is expected.
 	if !isDropT(c2.Changes[0], name) {
+		// Not the expected pattern. Keep the table name as is.
+		add.T.Name = prefixed
 		return nil, nil, false
 	}
 	drop := c2.Changes[0].(*schema.DropTable)
@@ -141,6 +143,7 @@ func modifyUsingTemp(c1, c2, c3 *sqlcheck.Change) (from, to *schema.Table, _ boo
 	if len(c3.Changes) == 2 && isDropT(c3.Changes[0], prefixed) && isAddT(c3.Changes[1], name) {
 		return drop.T, add.T, true
 	}
+	add.T.Name = prefixed
 	return nil, nil, false
 }
 
